@@ -731,6 +731,11 @@ fn circular_arc_properties(a: Pos, b: Pos, c: Pos) -> Option<CircularArcProperti
 
     let radius = d_a.length();
 
+    // The same goes for a circle whose radius is out of range
+    if !radius.is_finite() {
+        return None;
+    }
+
     let theta_start = f64::from(d_a.y).atan2(f64::from(d_a.x));
     let mut theta_end = f64::from(d_c.y).atan2(f64::from(d_c.x));
 
